@@ -832,6 +832,9 @@ var sessionAccessorTable = []struct {
 }{
 	{"GetSessionFromContext", ""},
 	{"ClientSessionFromContext", "SSEServer"},
+	// the server handle: on the legacy SSE server every callback (middlewares, list filters, prompt and resource
+	// handlers, notification handlers) finds it in its context, not only tool handlers
+	{"GetServerFromContext", "SSEServer"},
 }
 
 func c15SessionInContext(c *Ctx) {
@@ -966,8 +969,8 @@ func c15SessionInContext(c *Ctx) {
 					n++
 					ok, why := w.descends(fn, a, 0, map[ctxKey]bool{})
 					c.R.Check(ok, "R-session-in-context", sprintf("%s readable in the context dispatched by %s", row.accessor, fname(fn)), c.Pos(call.Pos()),
-						"the context descends from a call that stores the session under the key the accessor reads",
-						sprintf("%s hands the dispatcher a context that descends from %s without the session having been put under the key %s reads: every middleware of these requests gets no session from that accessor", fname(fn), why, row.accessor))
+						"the context descends from a call that stores the value under the key the accessor reads",
+						sprintf("%s hands the dispatcher a context that descends from %s without anything having been put under the key %s reads: every middleware, filter and handler of these requests gets nothing from that accessor", fname(fn), why, row.accessor))
 				}
 			})
 		}
